@@ -756,7 +756,7 @@ class ppc_mn(ppc_mn_base):
 
             mnemo_nosymb = []
             for a in full_mnemo:
-                if not is_symbol(a) or a in bm_cond.n:
+                if not is_symbol(a) or a in ppc_bc.all_tests:
                     mnemo_nosymb.append(a)
                     continue
                 print("WARNING asm symb %s"%a)
@@ -1134,10 +1134,11 @@ class ppc_bc(ppc_mn):
             self.bi_parsed = True
         else:
             name+='C'
-        if self.aa:
-            name+='A'
+        # (the assembler reads L before A: bcla)
         if self.lk:
             name+='L'
+        if self.aa:
+            name+='A'
 
         return name
 
@@ -1161,7 +1162,7 @@ class ppc_bc(ppc_mn):
                 self.bo&=0x1d
                 opts = opts[2:]
         elif opts[0] =='C':
-            pass
+            opts = opts[1:]
         else:
             if len(opts)>1 and opts[:2] in ppc_bc.all_tests:
                 self.bi_done = True
@@ -1285,7 +1286,7 @@ class ppc_bctr(ppc_mn):
 
     @classmethod
     def check_opts(cls, rest):
-        if not rest:
+        if rest in ["", "L"]:
             return True
         if rest[0] == 'D':
             rest = rest[1:]
@@ -1322,6 +1323,8 @@ class ppc_bctr(ppc_mn):
             self.bi_parsed = True
         else:
             pass
+        if self.lk:
+            name+='L'
 
         return name
 
@@ -1406,7 +1409,7 @@ class ppc_bctr(ppc_mn):
             else:
                 self.bo |=0x10
 
-        if len(args) >1:
+        if args:
             tmp = str2cr(args.pop())
             self.bi|=tmp<<2
 
